@@ -380,10 +380,6 @@ Proof.
 Qed.
 
 (* ================================================================== refutations by witness *)
-Lemma xonsh_refuted_quote :
-  exists v, read_xonsh_sp (xonsh_quote v) = Reads None.
-Proof. exists (B [36;32;63;62;92]). vm_compute. reflexivity. Qed.
-
 Lemma tcsh_refuted :
   exists v, read_tcsh (replace1 tcsh_quoter (replace1 tcsh_sanitizer v)) <> Some v.
 Proof. exists (B [97;123;98]). vm_compute. discriminate. Qed.
